@@ -1888,6 +1888,103 @@ def check_high_orders(ctx, hz):
         if v is None or np.isnan(v) or abs(v - mv) > TOL * max(1.0, abs(mv)):
             ctx.disagree('C13 radial high', {'n': n, 'm': m, 'r': r, 'impl': repr(v), 'model': str(q)[:80]})
 
+
+def gen_highmode_case(rng, nhi):
+    """zernike() itself beyond the table: one radial order n in 21..nhi, a cached history over several m of either sign with and
+    without the cut-off, on an unstructured or separated polar grid that contains the centre, the exact rim and radii around it"""
+    n = int(rng.integers(NMAX + 1, nhi + 1))
+    ms = list(range(n % 2, n + 1, 2))
+    pick = sorted(set(int(i) for i in rng.integers(0, len(ms), size=int(rng.integers(3, 7)))), reverse=bool(rng.random() < 0.6))
+    reqs = []
+    for i in pick:
+        m = ms[i] if rng.random() < 0.5 else -ms[i]
+        reqs.append([n, int(m), bool(rng.random() < 0.6)])
+    if rng.random() < 0.5:
+        q = reqs[int(rng.integers(0, len(reqs)))]
+        reqs.append([q[0], -q[1], not q[2]])
+    D = gen_D(rng)
+    rs = [r for r in gen_radii(rng, D, int(rng.integers(5, 9))) if r <= 0.5625 * D]
+    case = {'what': 'highmode', 'cache': True, 'D': D, 'reqs': reqs}
+    if rng.random() < 0.5:
+        case.update(kind='polar-points', r=rs, ang=[list(gen_angle(rng)) for _ in rs])
+    else:
+        case.update(kind='polar-separated', R=rs, ang=[list(gen_angle(rng)) for _ in range(int(rng.integers(1, 4)))])
+    return case
+
+
+def run_highmode(hz, case):
+    grid, pts = build(case)
+    D = case['D']
+    real = real_values(hz, grid, D, case['reqs'], {} if case['cache'] else None)
+    outside, amb = cut_info(pts, D)
+    rim = rim_mask(pts, D)
+    npts = len(pts[1])
+    th = np.array([np.arctan2(LD(s_) / LD(d), LD(c) / LD(d)) for c, s_, d in pts[2]], dtype=LD)
+    bad, mags = [], []
+    for qi, ((n, m, cut), z) in enumerate(zip(case['reqs'], real)):
+        tag = 'zernike(%d,%d,D=%r,cutoff=%s) on %s grid' % (n, m, D, cut, case['kind'])
+        R = np.array([LD(to_float(exact_radial(n, abs(m), 2 * Fraction(r) / Fraction(D)))) for r in pts[1]], dtype=LD)
+        A = np.sqrt(LD(2)) * np.cos(m * th) if m > 0 else (np.sqrt(LD(2)) * np.sin(-m * th) if m < 0 else np.ones(npts, dtype=LD))
+        Z = np.sqrt(LD(n + 1)) * R * A
+        Rm = R
+        if cut:
+            Z = np.where(outside, LD(0), Z); Rm = np.where(outside, LD(0), R)
+        mag = float(np.max(np.abs(np.sqrt(LD(2 * (n + 1))) * Rm))) if npts else 0.0
+        mags.append(mag)
+        if isinstance(z, str):
+            bad.append(('high-order mode raises', '%s %s' % (tag, z), qi)); continue
+        if z.shape != (npts,):
+            bad.append(('high-order mode field-length', '%s returned %d values for %d grid points' % (tag, z.size, npts), qi)); continue
+        err = np.abs(z - Z.astype(float))
+        if np.isnan(z).any() or (err > TOL * max(1.0, mag)).any():
+            j = int(np.nanargmax(np.where(np.isnan(z), np.inf, err)))
+            bad.append(('high-order mode value ' + case['kind'], '%s = %.12g at point %d (r = %r), definition gives %.12g' % (tag, z[j], j, pts[1][j], float(Z[j])), qi))
+        if cut and (rim & ~(z == 0.0)).any():
+            j = int(np.nonzero(rim & ~(z == 0.0))[0][0])
+            bad.append(('rim-not-outside ' + case['kind'], '%s = %r at point %d, exactly on the rim 2r = D' % (tag, z[j], j), qi))
+    return bad, (pts, real, mags, rim)
+
+
+def check_high_modes(ctx, hz):
+    nhi = ctx.scale(40, 48)
+    lines, slots = [], []
+    for k in range(ctx.scale(10, 80)):
+        case = gen_highmode_case(ctx.rng, nhi)
+        bad, (pts, real, mags, rim) = run_highmode(hz, case)
+        seen = set()
+        for key, what, qi in bad:
+            if key in seen:
+                continue
+            seen.add(key)
+            small = dict(case, reqs=[case['reqs'][qi]])
+            if not any(k2 == key for k2, _, _ in run_highmode(hz, small)[0]):
+                small = dict(case, reqs=case['reqs'][:qi + 1])
+            ctx.violation(key, what, small)
+        ctx.count('high-order-mode-cases:' + case['kind']); ctx.count('high-order-mode-requests', len(case['reqs']))
+        ctx.count('high-order-mode-rim-points', int(rim.sum()))
+        lines.append(pts_line(pts, case))
+        for (n, m, cut), z, mag in zip(case['reqs'], real, mags):
+            ctx.case({'what': 'highmode', 'n': n, 'm': m, 'cutoff': cut, 'kind': case['kind']}, ('highmode', case['kind'], n, m, bool(cut)))
+            slots.append((len(lines), case, n, m, cut, z, mag))
+            lines.append('C13 mode %d %d %s %d' % (n, m, rat(case['D']), 1 if cut else 0))
+            lines.append('C13 normsq %d %d' % (n, m))
+    out = ctx.model(lines)
+    for idx, case, n, m, cut, z, mag in slots:
+        if not (out[idx].startswith('ok ') and out[idx + 1].startswith('ok ')):
+            raise MachineryError('model answered %r / %r to %r' % (out[idx][:60], out[idx + 1][:60], lines[idx]))
+        q = parse_rat_list(out[idx][3:])
+        nsq = Fraction(out[idx + 1][3:])
+        nf = np.sqrt(LD(nsq.numerator) / LD(nsq.denominator))
+        mv = np.array([float(nf * LD(to_float(v))) for v in q])
+        ctx.traces_validated += 1
+        if isinstance(z, str) or z.shape != mv.shape:
+            ctx.disagree('C13 mode high', {'case': case, 'req': [n, m, cut], 'impl': z if isinstance(z, str) else 'length %d' % z.size, 'model': 'length %d' % len(mv)})
+            continue
+        err = np.abs(z - mv)
+        if np.isnan(z).any() or (err > TOL * max(1.0, mag)).any():
+            j = int(np.nanargmax(np.where(np.isnan(z), np.inf, err)))
+            ctx.disagree('C13 mode high', {'case': {k: v for k, v in case.items() if k != 'reqs'}, 'req': [n, m, cut], 'point': j, 'impl': repr(z[j]), 'model': repr(mv[j])})
+
 # =============================================================================================
 
 def run(ctx):
@@ -1909,7 +2006,7 @@ def run(ctx):
                 '(E) the radial polynomial as a polynomial: zernike_radial run on the symbolic argument numpy Polynomial([0,1]) (all 121 pairs n <= 20, any request order, with/without one shared cache) against the factorial coefficients (oracle) and the coefficient lists of the model recursion (radialPoly); peval of the model list = radialEval = the code at sampled radii (0, 1, 2^-20, k/256); the Gram matrix of zernike_radial under 32-point Gauss-Legendre quadrature with weight r against delta/(2(n+1)) (oracle) and the exact integral of the model product polynomial (pint01). '
                 '(F) make_zernike_basis(num, D, grid, starting_mode, ansi, radial_cutoff, use_cache) on unstructured and separated polar grids (all 231 modes directed, random windows of indices, every combination of the keyword defaults): every column against the definition of the mode the documented ordering names (oracle) and against the column of the array-level model basisA (C13 abasis), grid coordinates byte-identical afterwards. '
                 '(G) the Field generators of make_zernike_basis(num, D, None, …) called in random order (some repeatedly) on two polar grids (half of the time of equal size but different points), each call against the definition on the grid it was handed (oracle) and against the model runGensA without a shared cache (C13 gens own). '
-                '(H) beyond the table: zernike_radial for orders 21..40 (thorough 48) in cached request histories (|m| decreasing / increasing / random, repeated requests, two radial orders interleaved in one cache) at r = 0, 1, 2^-12 and random dyadic radii up to 1.125, against the factorial definition in exact integers, the unit-circle identity R_n^m(1) = 1 and the centre value (oracle) and against radialEval of the model (C13 radial) — the theorems radial_matches_definition / radial_at_one / radial_at_zero hold for every order. Rim: points exactly on 2r = D (polar grids: always; regular pupil grids: Pythagorean pixels) carry exactly 0 with the cut-off (rim-not-outside). '
+                '(H) beyond the table: zernike_radial for orders 21..40 (thorough 48) in cached request histories (|m| decreasing / increasing / random, repeated requests, two radial orders interleaved in one cache) at r = 0, 1, 2^-12 and random dyadic radii up to 1.125, against the factorial definition in exact integers, the unit-circle identity R_n^m(1) = 1 and the centre value (oracle) and against radialEval of the model (C13 radial) — the theorems radial_matches_definition / radial_at_one / radial_at_zero hold for every order. The complete zernike() for the same orders on unstructured / separated polar grids (centre, exact rim, radii around it, Pythagorean directions; cached histories over several m of either sign, with and without the cut-off) against exact-integer radial definition x 80-bit azimuthal factor (oracle) and against C13 mode x sqrt(C13 normsq) (model). Rim: points exactly on 2r = D (polar grids: always; regular pupil grids: Pythagorean pixels) carry exactly 0 with the cut-off (rim-not-outside). '
                 'Non-trivial = a mode evaluation on a non-empty grid; distinct by (grid kind, n, m, cutoff, cache, centre present, rim present).')
     ctx.assumptions += ['np.hypot / arctan2 / cos / sin / pow are accurate to a few ulp',
                         'float sqrt in the index maps is tied only on the exhaustively compared range',
@@ -1933,6 +2030,7 @@ def run(ctx):
     check_gens(ctx, hz)
     ctx.extra['time_gens_s'] = round(time.time() - t, 1); t = time.time()
     check_high_orders(ctx, hz)
+    check_high_modes(ctx, hz)
     ctx.extra['time_high_orders_s'] = round(time.time() - t, 1)
     by = {}
     for d in ctx.disagreements:
@@ -1983,6 +2081,11 @@ def replay(ctx, case):
     elif what == 'noll-injective':
         seen = set(hz.noll_to_zernike(i) for i in range(1, case['N'] + 1))
         ok = len(seen) == case['N']
+    elif what == 'highmode':
+        bad = run_highmode(hz, case)[0]
+        for key, what_, _ in bad[:5]:
+            print('  fails:', key, '-', what_)
+        ok = not bad
     elif what == 'high':
         bad = run_high(hz, case)[0]
         for key, what_, _ in bad[:5]:
